@@ -10,6 +10,7 @@
    handshake.makeleave ver userID origin inRoom roomID tmode tstate
    handshake.invite    ver ev roomID invitedUser senderQ verify known stripped stateq cur
    handshake.performjoin … (see below)
+   handshake.perform_invite, handshake.sendjoin_pseudo: see VDriver/HandshakeInvite.lean
 -/
 import VDriver.Util
 import VDriver.Auth
@@ -17,6 +18,7 @@ import VDriver.Fedcheck
 import VModel.Handshake
 import VModel.HandshakeSpec
 import VModel.FedCheckInst
+import VDriver.HandshakeInvite
 namespace V.Driver.HandshakeOps
 open V V.Json V.GoJson V.Driver V.Handshake V.Driver.AuthOps
 
@@ -328,6 +330,33 @@ def handle (op : String) (args : Array String) : Option String :=
       let guards := checkCreate knownVersion create &&
         (FedCheck.Spec.sendJoin O p (FedCheck.untrusted A) (FedCheck.untrusted S) ev).isSome
       some (withSpec m guards)
-  | _, _ => none
+  | "sendjoin_pseudo", [ver, cls, ev, roomID, reqEventID, origin, localS, senderQ, verify, store, selfok, cur] =>
+    -- HandleSendJoin for org.matrix.msc4014 (encoding: VDriver/HandshakeInvite.lean)
+    let v := strBytes ver
+    let e : Event := if cls == "o" then (parseEvArg v ev).getD default else default
+    let (dec, via) := memberContentOf e
+    let base : SendJoinIn := {
+      versionKnown := knownVersion v, parses := cls == "o",
+      stateKey := e.stateKey, sender := e.sender, eventRoomID := e.roomID, eventID := e.eventID,
+      membership := membershipOf e, contentDecodes := dec, authorisedVia := via,
+      roomID := unhexD roomID, reqEventID := unhexD reqEventID, requestOrigin := strBytes origin,
+      localServer := strBytes localS, keyID := b!"ed25519:k1",
+      senderDomain := if senderQ.startsWith "d:" then some (strBytes (senderQ.drop 2).toString) else none,
+      verify := .good, curMembership := parseCur cur, userID := userIDOracle }
+    -- getMXIDMapping + validateMXIDMappingSignatures, the caller's verifier answering `verify` for every listed server
+    let mapping : MappingAns :=
+      match Signers.getMXIDMapping e with
+      | .error _ => .missing
+      | .ok mp =>
+        match Signers.splitIDDomain 0x40 mp.userID with
+        | none => .invalid
+        | some us => if !mp.servers.contains us then .invalid else if verify != "good" then .invalid else .valid
+    let i : SendJoinPseudoIn := { base := base, mapping := mapping, storeOK := store != "err", selfVerify := selfok == "1" }
+    let m := match handleSendJoinPseudo i with
+      | .ok o => showSigned (some o.alreadyJoined) o.sig
+      | .error er => showHErr er
+    some (withSpec m (Spec.sendJoinPseudoGuards i))
+  -- PerformInvite: VDriver.HandshakeInvite
+  | _, _ => HandshakeInviteOps.handle op args
 
 end V.Driver.HandshakeOps
